@@ -27,6 +27,8 @@ type XOptions struct {
 	// JWTAccess: access tokens are JWTs (oauth2.DefaultJWTStrategy) signed by ModelSigner.
 	// Sessions must then be made by NewJWTSession.
 	JWTAccess bool
+	// DeterministicJWT: the model signer returns the same token string for equal claims (RS256-like).
+	DeterministicJWT bool
 	Tweak  func(cfg *fosite.Config)
 }
 
@@ -54,7 +56,9 @@ func NewX(opt XOptions) *World {
 	noKey := func(context.Context) (interface{}, error) { return nil, fosite.ErrServerError }
 	var core oauth2.CoreStrategy = compose.NewOAuth2HMACStrategy(cfg)
 	if opt.JWTAccess {
-		core = &oauth2.DefaultJWTStrategy{Signer: NewModelSigner(), HMACSHAStrategy: compose.NewOAuth2HMACStrategy(cfg), Config: cfg}
+		ms := NewModelSigner()
+		ms.Deterministic = opt.DeterministicJWT
+		core = &oauth2.DefaultJWTStrategy{Signer: ms, HMACSHAStrategy: compose.NewOAuth2HMACStrategy(cfg), Config: cfg}
 	}
 	strat := &compose.CommonStrategy{
 		CoreStrategy:               core,
@@ -306,6 +310,60 @@ func KeyOf(tok string) string {
 type ModelSigner struct {
 	n      int
 	claims map[string]jwt.MapClaims
+	// Deterministic: like RS256/HS256, signing equal claims twice yields the very same token string
+	// (the default models a randomised signature: every Generate call returns a new string).
+	Deterministic bool
+	order         []string
+}
+
+func sameClaimValue(a, b interface{}) bool {
+	switch x := a.(type) {
+	case nil:
+		return b == nil
+	case string:
+		y, ok := b.(string)
+		return ok && x == y
+	case int64:
+		y, ok := b.(int64)
+		return ok && x == y
+	case int:
+		y, ok := b.(int)
+		return ok && x == y
+	case float64:
+		y, ok := b.(float64)
+		return ok && x == y
+	case bool:
+		y, ok := b.(bool)
+		return ok && x == y
+	case []string:
+		y, ok := b.([]string)
+		if !ok || len(x) != len(y) {
+			return false
+		}
+		for i := range x {
+			if x[i] != y[i] {
+				return false
+			}
+		}
+		return true
+	case map[string]interface{}:
+		y, ok := b.(map[string]interface{})
+		return ok && sameClaims(x, y)
+	}
+	return false // unknown type: treated as different (a fresh token string)
+}
+
+func sameClaims(a, b map[string]interface{}) bool {
+	if len(a) != len(b) {
+		return false
+	}
+	for k, v := range a {
+		w, ok := b[k]
+		if !ok || !sameClaimValue(v, w) {
+			return false
+		}
+	}
+	return true
 }
 
 func NewModelSigner() *ModelSigner { return &ModelSigner{claims: map[string]jwt.MapClaims{}} }
@@ -313,6 +371,14 @@ func NewModelSigner() *ModelSigner { return &ModelSigner{claims: map[string]jwt.
 func (m *ModelSigner) Generate(ctx context.Context, claims jwt.MapClaims, header jwt.Mapper) (string, string, error) {
 	if claims == nil || header == nil {
 		return "", "", fosite.ErrServerError
+	}
+	if m.Deterministic {
+		for _, prev := range m.order {
+			if sameClaims(map[string]interface{}(m.claims[prev]), map[string]interface{}(claims)) {
+				parts := strings.Split(prev, ".")
+				return prev, parts[2], nil
+			}
+		}
 	}
 	m.n++
 	k := strconv.Itoa(1000 + m.n)
@@ -323,6 +389,7 @@ func (m *ModelSigner) Generate(ctx context.Context, claims jwt.MapClaims, header
 		cp[key] = v
 	}
 	m.claims[tok] = cp
+	m.order = append(m.order, tok)
 	return tok, sig, nil
 }
 
